@@ -15,6 +15,7 @@ import Pxv.Driver.Rules
 import Pxv.Driver.Errors
 import Pxv.Driver.Router
 import Pxv.Driver.Bind
+import Pxv.Driver.Dep
 open Pxv.Driver
 
 def main (args : List String) : IO UInt32 := do
@@ -36,4 +37,5 @@ def main (args : List String) : IO UInt32 := do
   | ["errors"] => serve Pxv.Err.handle; return 0
   | ["router"] => serve Pxv.Router.handle; return 0
   | ["bind"] => serve Pxv.Bind.handle; return 0
+  | ["dep"] => serve Pxv.Dep.handle; return 0
   | _ => IO.eprintln "usage: pxmodel <model>"; return 2
